@@ -447,12 +447,36 @@ def container_leaf_type_cases(out):
             cases.append((f"pair n={n} fill={fill}", f_tup, [(jnp.full((n,), fill, jnp.float32), jnp.full((), fill, jnp.int32))], "accept"))
             cases.append((f"pair wrong dtype n={n} fill={fill}", f_tup, [(jnp.full((n,), fill, jnp.float32), jnp.full((), fill, jnp.float32))], "reject"))
             cases.append((f"optional n={n} fill={fill}", f_opt, [jnp.full((n,), fill, jnp.float32), None], "accept"))
+    # a field whose axis is worth something only once ANOTHER field has bound a name, declared in an order that is not the
+    # sorted one (tracing rebuilds dicts with sorted keys), the value written in both orders
+    class Window(TypedDict):
+        signal: Float[jax.Array, "n"]
+        padded: Float[jax.Array, "n+2"]
+
+    @jaxtyped(typechecker=tc)
+    def f_win(tree: PyTree[Window]):
+        return 0.0
+
+    for n, pad, want in ((3, 5, "accept"), (3, 4, "reject"), (1, 3, "accept")):
+        cases.append((f"Window n={n} padded={pad} (written signal, padded)", f_win, [{"signal": jnp.zeros((n,), jnp.float32), "padded": jnp.zeros((pad,), jnp.float32)}], want))
+        cases.append((f"Window n={n} padded={pad} (written padded, signal)", f_win, {"w": {"padded": jnp.zeros((pad,), jnp.float32), "signal": jnp.zeros((n,), jnp.float32)}}, want))
     for name, fn, tree, want in cases:
         verdicts = {"eager": classify(lambda: fn(tree))}
         verdicts["jit"] = classify(lambda: jax.jit(fn)(tree))
         verdicts["eval_shape"] = classify(lambda: jax.eval_shape(fn, tree))
         verdicts["vmap"] = classify(lambda: jax.vmap(fn)(jax.tree_util.tree_map(lambda v: jnp.stack([v, v]), tree)))
         verdicts["jit(vmap)"] = classify(lambda: jax.jit(jax.vmap(fn))(jax.tree_util.tree_map(lambda v: jnp.stack([v, v]), tree)))
+        # the first traced use of a FRESH annotation, with JAX's tracer-leak checker on: a check keeps nothing of the trace
+        if want == "accept" and fn is f_td and "n=1 fill=0" in name:
+            @jaxtyped(typechecker=tc)
+            def f_fresh(tree: PyTree[Tuple[Float[jax.Array, "n"], Float[jax.Array, ""]]]):
+                return 0.0
+
+            def leaky():
+                with jax.checking_leaks():
+                    return jax.jit(f_fresh)([(jnp.zeros((2,), jnp.float32), jnp.zeros((), jnp.float32))])
+
+            verdicts["jit, first use, checking_leaks"] = classify(leaky)
         out.case(("container-leaf", name), True, sample={"case": name, "verdicts": verdicts})
         bad = {k: v for k, v in verdicts.items() if v != want}
         if bad:
